@@ -83,6 +83,9 @@ def run(pid, tier, seed):
     for ex in configurations(tier):
         if ex["lines"] and all(l.split()[0] not in ("9061", "9062", "0", "auto") and "[" not in l for l in ex["lines"]):
             recs.append(sp.chain(ex))
+            if all(l.split()[0] not in ("9999", "8888") for l in ex["lines"]):
+                # another controller added a listener while this TorConfig was bootstrapping (after it had read SocksPort)
+                recs.append(sp.midboot(ex))
     kinds = ["ok", "connerr", "other", "socksfail", "hangup"]
     for outs in itertools.product(kinds, repeat=2):
         recs.append(sp.fallback(outs))
@@ -126,6 +129,8 @@ def replay(pid, path):
         lines = [e["line"] for e in v["existing"]] if not v.get("implicit_default") else []
         if v.get("chain"):
             rec = sp.chain(dict(lines=v["base"]))
+        elif v.get("midboot"):
+            rec = sp.midboot(dict(lines=v["base"]))
         else:
             rec = sp.choose(dict(lines=lines, default="9050"), v["requested"] or None, v["path"], twice=v.get("twice", False))
     else:
